@@ -426,11 +426,11 @@ pub fn run(tier: Tier, replay: Option<Value>) -> i32 {
     let run = Run::new("C07", "exploration", tier, replay.clone());
     let is_race_replay = replay.as_ref().and_then(|r| r.get("race")).is_some();
     if !is_race_replay {
-        let n = tier.pick(150, 2000);
+        let n = tier.pick(150, 6000);
         run.par_cases(n, super::threads(), |case| one_history(&run, case));
     }
     if replay.is_none() || is_race_replay {
-        for case in 0..tier.pick(3u64, 8) {
+        for case in 0..tier.pick(3u64, 16) {
             if let Some(r) = &replay {
                 if r.get("case").and_then(|c| c.as_u64()) != Some(case) {
                     continue;
